@@ -3,7 +3,7 @@ import json, os, shutil, time, datetime
 from lib.vcheck import *
 from lib import pkikit as K
 
-WINDOW = 45      # seconds a short-lived signing certificate stays valid after it is generated
+WINDOW = 70      # seconds a short-lived signing certificate stays valid after it is generated
 
 
 def run(ctx):
